@@ -333,7 +333,9 @@ type ewmaDec struct {
 func (e *ewmaDec) Decor(decor.Statistics) (string, int) { return e.Format("(e)") }
 func (e *ewmaDec) EwmaUpdate(n int64, d time.Duration)  { e.n.Add(n) }
 
-func sgrWrap(s string) string { return "\x1b[32m" + s + "\x1b[0m" }
+func sgrWrap(s string) string  { return "\x1b[32m" + s + "\x1b[0m" }
+func metaDone(s string) string { return "\x1b[35m" + s + "\x1b[0m" }
+func metaAbrt(s string) string { return "\x1b[36m" + s + "\x1b[0m" }
 
 func slowDown(slow int) {
 	if slow > 0 {
@@ -482,6 +484,8 @@ func (rr *runRec) barOptions(bi int) (mpb.BarFiller, []mpb.BarOption) {
 	}
 	if spec.OnDone {
 		app = append(app, decor.OnAbort(decor.OnComplete(decor.Name("(run)"), "(DONE!)"), "(ABRT!)"))
+		// meta decorations: colour only on completion / only on abort
+		app = append(app, decor.OnAbortMeta(decor.OnCompleteMeta(decor.Name("(m)"), metaDone), metaAbrt))
 	}
 	opts := []mpb.BarOption{mpb.BarID(bi), mpb.PrependDecorators(pre...), mpb.AppendDecorators(app...)}
 	if spec.Prio != nil {
